@@ -195,7 +195,7 @@ const COMMENTS: &[&str] = &["/* } */", "/* ( /* ] */ \" */", "// )\n", "// \" ' 
 const LIFETIME_EXPRS: &[&str] = &[
     "'a: loop { break 'a }",
     "'outer: for i in 0..3 { continue 'outer }",
-    "foo::<'static, &'a str>(x)",
+    "(foo::<'static, &'a str>(x))",
     "(x as &'static str)",
     "(|y: &'a str| -> &'a str { y })(x)",
     "<T as Tr<'a>>::f::<'b>(x)",
@@ -473,7 +473,9 @@ fn judge_embedded(ctx: &Ctx, dir: &Path, c: &ECase) -> Option<(String, String)> 
             let want_ty = gt::rust_tokens(&c.ty).unwrap_or_default();
             let want_ty: Vec<String> = if want_ty == ["(", ")"] { vec![] } else { want_ty };
             if ret != want_ty {
-                return Some(("C26/embedded/return-type-differs".into(), format!("type annotation `{}` reached __action{} as `{}`", c.ty, i + 1, ret.join(" "))));
+                // root-cause tag: `(A)` and `(A,)` are one and the same to LALRPOP's type parser
+                let tag = if want_ty.windows(2).any(|w| w[0] == "," && w[1] == ")") { "one-element-tuple" } else { "other" };
+                return Some((format!("C26/embedded/return-type-differs/{tag}"), format!("type annotation `{}` reached __action{} as `{}`", c.ty, i + 1, ret.join(" "))));
             }
         }
     }
@@ -604,7 +606,8 @@ pub fn run(ctx: Ctx, replay: Option<PathBuf>) -> i32 {
          distinct = distinct grammar text",
     );
     ck.assume("an identifier directly followed by `<` is one lexical unit of the grammar language (macro name): its adjacency is kept as written");
-    ck.assume("inserted comments never contain `__` (LALRPOP derives its identifier prefix from the input text)");
+    ck.assume("inserted comments never contain `__` (LALRPOP derives its identifier prefix from the input text) nor `<>` (a comment placed after `=>` is part of the action code, where `<>` is the substitution marker), and never form doc comments");
+    ck.assume("embedded snippets have no `,` or `;` outside (), [], {} - LALRPOP ends a code block there by design (so turbofish lists are parenthesised)");
     if let Some(p) = replay {
         ck.strict = true;
         match super::load_replay(&p) {
